@@ -271,6 +271,41 @@ func ruleWorkerLoops(c *Ctx) {
 				if !okCond(i.Cond) {
 					bad = "condition @" + p.InstrPos(i) + " depends on something other than the queue itself"
 				}
+				// tasks are appended while the worker has released the mutex to run one: a loop over the queue
+				// re-reads its length on every iteration (a `range` fixes it at loop entry and misses them)
+				loops := blocksInLoops(g)
+				if loops[i.Block()] {
+					var lens []*ssa.Call
+					var collect func(v ssa.Value, d int)
+					seenV := map[ssa.Value]bool{}
+					collect = func(v ssa.Value, d int) {
+						if v == nil || seenV[v] || d > 6 {
+							return
+						}
+						seenV[v] = true
+						switch x := v.(type) {
+						case *ssa.BinOp:
+							collect(x.X, d+1)
+							collect(x.Y, d+1)
+						case *ssa.UnOp:
+							if x.Op == token.NOT {
+								collect(x.X, d+1)
+							}
+						case *ssa.Call:
+							if b, isB := x.Call.Value.(*ssa.Builtin); isB && b.Name() == "len" {
+								if f, _ := fieldLoad(x.Call.Args[0]); f != nil && qf[f] {
+									lens = append(lens, x)
+								}
+							}
+						}
+					}
+					collect(i.Cond, 0)
+					for _, lc := range lens {
+						if !loops[lc.Block()] {
+							bad = "the loop over the queue takes its length once, before the loop (@" + p.InstrPos(lc) + "): a task appended while the worker runs another with the mutex released is never run and never re-dispatched"
+						}
+					}
+				}
 			}
 		}
 		c.inst(1)
